@@ -1,6 +1,7 @@
 package mon
 
 import (
+	"fmt"
 	"time"
 
 	"github.com/nspcc-dev/dbft"
@@ -17,6 +18,9 @@ type Live struct {
 	Base
 	Silent       int
 	FromStart    bool // faults are "silent from the start" only
+	// AsyncPrefix: the run had an arbitrary asynchronous (loss-free) prefix; see End for the bound.
+	AsyncPrefix bool
+	lockedAtGST int
 	Inconclusive bool
 	v0           int
 	gstSeen      int64
@@ -86,9 +90,24 @@ func (m *Live) Event(c *vnet.Cluster, e *vnet.Event) {
 	}
 	if c.LastFault() != m.gstSeen {
 		m.gstSeen = c.LastFault()
+		m.lockedAtGST = 0
 		for _, n := range c.Nodes {
-			if n.Live() && n.D.Validators != nil && int(n.D.ViewNumber) > m.v0 {
+			if !n.Live() || n.D.Validators == nil {
+				continue
+			}
+			if n.D.CommitSent() || n.D.PreCommitSent() {
+				m.lockedAtGST++
+			}
+			if int(n.D.ViewNumber) > m.v0 {
 				m.v0 = int(n.D.ViewNumber)
+			}
+			// a view the node has already asked for counts: its timer runs with that view's (doubled) duration
+			if i := n.D.MyIndex; i >= 0 && i < len(n.D.ChangeViewPayloads) && n.D.ChangeViewPayloads[i] != nil {
+				if q := payloadOf(n.D.ChangeViewPayloads[i]); q != nil {
+					if cv, ok := q.Body.(*vnet.ChView); ok && int(cv.NewView) > m.v0 {
+						m.v0 = int(cv.NewView)
+					}
+				}
 			}
 		}
 	}
@@ -104,6 +123,12 @@ func (m *Live) End(c *vnet.Cluster) {
 		T = int64(c.Cfg.MaxTPB) // dynamic block time: an idle round legitimately lasts up to the maximum block time
 	}
 	exp := m.v0 + m.Silent
+	if m.AsyncPrefix {
+		// up to F validators may end up commit-locked in a view the others abandon (they accept the
+		// preparations which the others, already asking for a view change, refuse): each such view costs
+		// one more round of the ladder when its proposer is one of the locked ones
+		exp += fOf(c.Cfg.N)
+	}
 	if exp > 20 {
 		exp = 20
 	}
@@ -143,6 +168,10 @@ func (m *Live) End(c *vnet.Cluster) {
 					m.fail(c, "stall:amnesiac-primary-equivocation", "n%d is stuck at height %d: primary n%d restarted after proposing and proposed a different block for the same view; the commits/preparations of the others are split between the two proposals (bound %s exceeded by far, steps %d)", n.ID, n.Height(), who, time.Duration(B), c.Steps)
 					continue
 				}
+				if views, ok := commitSplit(c, n.Height()+1); ok {
+					m.fail(c, "stall:commit-split", "n%d is stuck at height %d: the live validators are commit-locked in different views (%s) and no view can collect M commits any more - the dBFT 2.0 liveness lock (bound %s exceeded by far, steps %d)", n.ID, n.Height(), views, time.Duration(B), c.Steps)
+					continue
+				}
 				m.fail(c, "stalled", "n%d is stuck at height %d (view %d) for %s of virtual time after GST=%s (bound %s, target %d, steps %d)", n.ID, n.Height(), n.D.ViewNumber, time.Duration(c.Clock-last), time.Duration(gst), time.Duration(B), target, c.Steps)
 			} else {
 				m.Inconclusive = true
@@ -155,6 +184,52 @@ func (m *Live) End(c *vnet.Cluster) {
 	}
 }
 
+// commitSplit tells whether the validators working on height h are commit-locked in such a way that
+// no view can ever collect M commits: for every view the validators locked in
+// it plus all validators that are not locked at all are fewer than M (a locked validator never
+// changes view, an unlocked one can only move upwards).
+func commitSplit(c *vnet.Cluster, h uint32) (string, bool) {
+	locked := map[byte]int{}
+	var unlockedViews []byte
+	total := 0
+	for _, n := range c.Nodes {
+		if n.Role == vnet.Silent {
+			total++
+			continue
+		}
+		if n.Role != vnet.Honest || !n.Live() || n.D.Validators == nil || n.D.MyIndex < 0 {
+			continue
+		}
+		total++
+		if n.D.BlockIndex != h {
+			continue // already past the height (or behind): not part of the argument
+		}
+		if n.D.CommitSent() || n.D.PreCommitSent() {
+			locked[n.D.ViewNumber]++
+		} else {
+			unlockedViews = append(unlockedViews, n.D.ViewNumber)
+		}
+	}
+	M := mOf(total)
+	if len(locked) == 0 || len(unlockedViews) >= M {
+		return "", false // nobody is locked, or the unlocked validators alone can still finish a later view
+	}
+	desc := ""
+	for v, k := range locked {
+		canJoin := 0
+		for _, u := range unlockedViews {
+			if u <= v {
+				canJoin++ // an unlocked validator only moves upwards
+			}
+		}
+		if k+canJoin >= M {
+			return "", false
+		}
+		desc += fmt.Sprintf(" view %d: %d locked (+%d that could still join);", v, k, canJoin)
+	}
+	return fmt.Sprintf("%s %d validators not locked, in views %v; M=%d", desc, len(unlockedViews), unlockedViews, M), true
+}
+
 // amnesiacPrimaryEquivocated tells whether a restarted node broadcast two
 // different proposals for one view of height h (one per instance).
 func amnesiacPrimaryEquivocated(c *vnet.Cluster, h uint32) (int, bool) {
@@ -164,9 +239,12 @@ func amnesiacPrimaryEquivocated(c *vnet.Cluster, h uint32) (int, bool) {
 	}
 	seen := map[key]vnet.H{}
 	for _, e := range c.Trace {
-		if e.Kind != vnet.KSend || e.P.T != dbft.PrepareRequestType || e.P.Hgt != h || e.P.View != 0 {
-			continue // the recorded finding is the view-0 case: Start proposes before anything can be recovered
+		if e.Kind != vnet.KSend || e.P.T != dbft.PrepareRequestType || e.P.Hgt != h {
+			continue
 		}
+		// view 0: Start proposes before anything can be recovered; later views: the restarted primary's timer
+		// may fire before a recovery message brings its earlier proposal back (if it was handed the proposal
+		// first and proposes nevertheless, the catch-up rule reports that separately as a violation)
 		if c.Nodes[e.Node].Restarts == 0 {
 			continue
 		}
